@@ -1114,6 +1114,78 @@ func head(b []byte) []byte {
 	return b
 }
 
+// ---- out-of-protocol probe (nothing asserted) ----
+
+// protocolProbe runs, on the real implementation, the per-writer call orders that cache.Writer does not allow
+// (Commit and Abort are alternatives, nothing but Close follows them) and records what a later Get returns. These orders
+// are outside C11's quantifier - no caller in /repo issues them, see props.d/C11.py - and the model ignores them; the
+// observations are kept in the evidence so that the assumption is visible, not hidden.
+func protocolProbe() map[string]string {
+	gateOn.Store(false)
+	getGateOn.Store(false)
+	res := map[string]string{}
+	val := []byte{7, 7, 7}
+	look := func(bc cache.BlobCache, k string) string {
+		r, err := bc.Get(k)
+		if err != nil {
+			return "miss"
+		}
+		defer r.Close()
+		v, err := readAll(r)
+		if err != nil {
+			return "hit, read error"
+		}
+		if bytes.Equal(v, val) {
+			return "hit = committed value"
+		}
+		return fmt.Sprintf("hit = %v (not the committed value %v)", v, val)
+	}
+	probe := func(name string, mk func() (cache.BlobCache, func()), direct bool, f func(w cache.Writer)) {
+		defer func() {
+			if e := recover(); e != nil {
+				res[name] = fmt.Sprintf("panic: %v", e)
+			}
+		}()
+		bc, done := mk()
+		defer done()
+		var opts []cache.Option
+		if direct {
+			opts = append(opts, cache.Direct())
+		}
+		w, err := bc.Add("aa00", opts...)
+		if err != nil {
+			res[name] = "add failed"
+			return
+		}
+		w.Write(val)
+		f(w)
+		w.Close()
+		res[name] = look(bc, "aa00")
+	}
+	mkDir := func() (cache.BlobCache, func()) {
+		dir := mkTemp("c11p-")
+		bc, err := cache.NewDirectoryCache(filepath.Join(dir, "c"), cache.DirectoryCacheConfig{MaxLRUCacheEntry: 2, MaxCacheFds: 2, SyncAdd: true})
+		if err != nil {
+			panic(err)
+		}
+		return bc, func() { bc.Close(); os.RemoveAll(dir) }
+	}
+	mkMem := func() (cache.BlobCache, func()) { return cache.NewMemoryCache(), func() {} }
+	for _, kind := range []struct {
+		name   string
+		mk     func() (cache.BlobCache, func())
+		direct bool
+	}{{"dir/memory-writer", mkDir, false}, {"dir/direct-writer", mkDir, true}, {"memcache", mkMem, false}} {
+		probe(kind.name+": Commit;Close (in protocol)", kind.mk, kind.direct, func(w cache.Writer) { w.Commit() })
+		probe(kind.name+": Close;Commit;Close", kind.mk, kind.direct, func(w cache.Writer) { w.Close(); w.Commit() })
+		probe(kind.name+": Commit;Abort", kind.mk, kind.direct, func(w cache.Writer) { w.Commit(); w.Abort() })
+		probe(kind.name+": Commit;Commit", kind.mk, kind.direct, func(w cache.Writer) { w.Commit(); w.Commit() })
+		probe(kind.name+": Commit;Write", kind.mk, kind.direct, func(w cache.Writer) { w.Commit(); w.Write([]byte{9}) })
+		probe(kind.name+": Abort;Commit", kind.mk, kind.direct, func(w cache.Writer) { w.Abort(); w.Commit() })
+	}
+	return res
+}
+
 // ---- main ----
 
 func main() {
@@ -1246,6 +1318,7 @@ func main() {
 	for _, c := range corpus {
 		run(c)
 	}
+	ctx.Extra["out_of_protocol_orders_observed_not_asserted"] = protocolProbe()
 	r := hx.NewRng(ctx.Seed)
 	nstress := 6
 	if ctx.Tier == "thorough" {
